@@ -185,7 +185,7 @@ class WorkChain(mixins.ContextMixin, processes.Process):
         if stepper_state is not None:
             self._stepper = self.spec().get_outline().recreate_stepper(stepper_state, self)
 
-    def to_context(self, **kwargs: Union[asyncio.Future, processes.Process]) -> None:
+    def to_context(self, /, **kwargs: Union[asyncio.Future, processes.Process]) -> None:
         """
         This is a convenience method that provides syntactic sugar, for
         a user to add multiple intersteps that will assign a certain value
